@@ -358,6 +358,101 @@ theorem Fwd.batch_sum_spec {α} [Add α] [Zero α] {x y : Tensor α} (hx : WF x.
       rw [sumLoop_eq_sumN]
       congr 1; funext b; congr 1; ring
 
+theorem checkAll_inv {α} {xs : List (Tensor α)} {u : Unit} (h : checkAll xs = .ok u) : ∀ x ∈ xs, x.loc = .here := by
+  induction xs with
+  | nil => intro x hx; cases hx
+  | cons x rest ih =>
+    simp only [checkAll] at h
+    cases hc : checkDevice x with
+    | error e => simp [hc, bind, Except.bind] at h
+    | ok u' =>
+      simp only [hc, bind, Except.bind] at h
+      intro x' hx'
+      rcases List.mem_cons.mp hx' with rfl | h'
+      · exact checkDevice_inv hc
+      · exact ih h x' h'
+
+/-- `batch::concat(xs)` -/
+theorem Fwd.batch_concat_spec {α} {xs : List (Tensor α)} {y : Tensor α} {raw : Nat → α}
+    (hxs : ∀ x ∈ xs, WF x.shape) (h : batchConcatFw xs raw = .ok y) :
+    ∃ x0 rest, xs = x0 :: rest ∧ y.shape.dims = x0.shape.dims ∧
+      y.shape.batch = (xs.map (·.shape.batch)).sum ∧ (∀ x ∈ xs, x.shape.volume = x0.shape.volume) ∧
+      IsBatchConcat x0.shape.volume (xs.map fun x => ⟨at2 x0.shape.volume x.data, x.shape.batch⟩)
+        (at2 x0.shape.volume y.data) := by
+  unfold batchConcatFw at h
+  split at h
+  · cases h
+  cases hc : checkAll xs with
+  | error e => simp [hc, bind, Except.bind] at h
+  | ok u =>
+  cases hF : Front.batchConcatFw (xs.map (·.shape)) with
+  | error e => simp [hc, hF, bind, Except.bind] at h
+  | ok p =>
+  obtain ⟨ys, ms⟩ := p
+  cases hR : runSetMany ys (ms.zip xs) raw with
+  | error e => simp [hc, hF, hR, bind, Except.bind] at h
+  | ok d =>
+  simp only [hc, hF, hR, bind, Except.bind] at h
+  split at h
+  · cases h
+  simp only [pure, Except.pure, Except.ok.injEq] at h
+  subst h
+  have hsh : ∀ s ∈ xs.map (·.shape), WF s := by
+    intro s hs
+    obtain ⟨x, hx, rfl⟩ := List.mem_map.mp hs
+    exact hxs x hx
+  obtain ⟨s0, srest, hcons, _, hd, _, hb, _, rfl, hall⟩ := Front.batchConcatFw_plan hsh hF
+  cases xs with
+  | nil => simp at hcons
+  | cons x0 rest =>
+  simp only [List.map_cons, List.cons.injEq] at hcons
+  obtain ⟨rfl, rfl⟩ := hcons
+  refine ⟨x0, rest, rfl, hd, by rw [hb]; simp [Function.comp_def], ?_, ?_⟩
+  · intro x hx
+    exact (hall x.shape (List.mem_map_of_mem hx)).1
+  · intro m hm v b hv hb'
+    simp only [List.length_map] at hm
+    simp only [List.getElem_map, at2] at hb' ⊢
+    set xs := x0 :: rest with hxsdef
+    have hlen : (Front.batchConcatPlan (xs.map (·.shape)) 0).length = xs.length := by
+      rw [Front.batchConcatPlan_length]; simp
+    have hmz : m < ((Front.batchConcatPlan (xs.map (·.shape)) 0).zip xs).length := by
+      simp only [List.length_zip, hlen]; omega
+    -- sizes of the operands
+    have hsz : ∀ q, (((xs.map (·.shape)).take q).map (·.size)).sum = ((xs.map (·.shape.size)).take q).sum := by
+      intro q; simp [List.map_take, List.map_map, Function.comp_def]
+    have hget : ∀ q (hq : q < xs.length) (hq' : q < ((Front.batchConcatPlan (xs.map (·.shape)) 0).zip xs).length),
+        ((Front.batchConcatPlan (xs.map (·.shape)) 0).zip xs)[q] =
+        (batchConcatMoves ((xs.map (·.shape.size)).take q).sum xs[q].shape.size, xs[q]) := by
+      intro q hq hq'
+      rw [List.getElem_zip, Front.batchConcatPlan_get _ _ _ (by simpa using hq), hsz]
+      simp
+    have hsize : ∀ x ∈ xs, x.shape.size = x0.shape.volume * x.shape.batch :=
+      fun x hx => (hall x.shape (List.mem_map_of_mem hx)).2
+    have hoff : ((xs.map (·.shape.size)).take m).sum = x0.shape.volume * ((xs.take m).map (·.shape.batch)).sum := by
+      have := sizes_sum (xs := (xs.take m).map (·.shape)) (V := x0.shape.volume) (by
+        intro s hs
+        obtain ⟨x, hx, rfl⟩ := List.mem_map.mp hs
+        exact hsize x (List.mem_of_mem_take hx))
+      simpa [List.map_take, List.map_map, Function.comp_def] using this
+    have ht : v + x0.shape.volume * b < xs[m].shape.size := by
+      rw [hsize _ (List.getElem_mem hm)]; exact lt_mul_of_lt hv hb'
+    have key := runSetMany_at _ hR m hmz (v + x0.shape.volume * b) (by rw [hget m hm]; exact ht)
+      (by intro t' h1 h2 e; rw [hget m hm] at e; simp only [batchConcatMoves] at e; omega)
+      (by
+        intro p' hp' hlt t' ht' e
+        have hp'' : p' < xs.length := by simp only [List.length_zip, hlen] at hp'; omega
+        rw [hget m hm, hget p' hp''] at e
+        simp only [batchConcatMoves] at e
+        have := take_sum_mono (xs.map (·.shape.size)) hlt (by simpa using hm)
+        simp only [List.getElem_map] at this
+        omega)
+    rw [hget m hm] at key
+    simp only [batchConcatMoves] at key
+    rw [← key, hoff]
+    simp only [bstartOf, ← List.map_take, List.map_map, Function.comp_def]
+    congr 1; ring
+
 /-- `copy(x)` / `Device::copy_tensor`, also for a tensor of another device -/
 theorem Fwd.copy_spec {α} {x y : Tensor α} {raw : Nat → α} (h : copyTensor x raw = .ok y) :
     x.loc ≠ .invalid ∧ y.shape = x.shape ∧ ∀ i, i < x.shape.size → y.data i = x.data i := by
